@@ -97,7 +97,7 @@ pub const FIXED_ALGS: [&str; 12] = [
 pub type UBig256 = digest::generic_array::typenum::Sum<U8192, U8>;       // 8200  > 256 * 32
 pub type UBig512 = digest::generic_array::typenum::Sum<U16384, U9>;      // 16393 > 256 * 64
 pub type UBig1024 = digest::generic_array::typenum::Sum<U32768, U17>;    // 32785 > 256 * 128
-pub const SKEIN_N: [usize; 25] = [1, 2, 3, 7, 8, 9, 16, 20, 28, 31, 32, 33, 48, 63, 64, 65, 96, 127, 128, 129, 160, 200, 256, 257, 300];
+pub const SKEIN_N: [usize; 141] = [1, 2, 3, 4, 5, 6, 7, 8, 9, 10, 11, 12, 13, 14, 15, 16, 17, 18, 19, 20, 21, 22, 23, 24, 25, 26, 27, 28, 29, 30, 31, 32, 33, 34, 35, 36, 37, 38, 39, 40, 41, 42, 43, 44, 45, 46, 47, 48, 49, 50, 51, 52, 53, 54, 55, 56, 57, 58, 59, 60, 61, 62, 63, 64, 65, 66, 67, 68, 69, 70, 71, 72, 73, 74, 75, 76, 77, 78, 79, 80, 81, 82, 83, 84, 85, 86, 87, 88, 89, 90, 91, 92, 93, 94, 95, 96, 97, 98, 99, 100, 101, 102, 103, 104, 105, 106, 107, 108, 109, 110, 111, 112, 113, 114, 115, 116, 117, 118, 119, 120, 121, 122, 123, 124, 125, 126, 127, 128, 129, 130, 131, 132, 133, 134, 135, 136, 160, 200, 256, 257, 300];
 
 macro_rules! skein_arms {
     ($ty:ident, $n:expr, $( $num:expr => $U:ty ),* ) => {
@@ -109,9 +109,7 @@ macro_rules! skein_arms {
 }
 macro_rules! skein_make {
     ($ty:ident, $n:expr) => {
-        skein_arms!($ty, $n, 1 => U1, 2 => U2, 3 => U3, 7 => U7, 8 => U8, 9 => U9, 16 => U16, 20 => U20, 28 => U28, 31 => U31, 32 => U32, 33 => U33,
-            48 => U48, 63 => U63, 64 => U64, 65 => U65, 96 => U96, 127 => U127, 128 => U128, 129 => U129, 160 => U160, 200 => U200, 256 => U256,
-            257 => U257, 300 => U300)
+        skein_arms!($ty, $n, 1 => U1, 2 => U2, 3 => U3, 4 => U4, 5 => U5, 6 => U6, 7 => U7, 8 => U8, 9 => U9, 10 => U10, 11 => U11, 12 => U12, 13 => U13, 14 => U14, 15 => U15, 16 => U16, 17 => U17, 18 => U18, 19 => U19, 20 => U20, 21 => U21, 22 => U22, 23 => U23, 24 => U24, 25 => U25, 26 => U26, 27 => U27, 28 => U28, 29 => U29, 30 => U30, 31 => U31, 32 => U32, 33 => U33, 34 => U34, 35 => U35, 36 => U36, 37 => U37, 38 => U38, 39 => U39, 40 => U40, 41 => U41, 42 => U42, 43 => U43, 44 => U44, 45 => U45, 46 => U46, 47 => U47, 48 => U48, 49 => U49, 50 => U50, 51 => U51, 52 => U52, 53 => U53, 54 => U54, 55 => U55, 56 => U56, 57 => U57, 58 => U58, 59 => U59, 60 => U60, 61 => U61, 62 => U62, 63 => U63, 64 => U64, 65 => U65, 66 => U66, 67 => U67, 68 => U68, 69 => U69, 70 => U70, 71 => U71, 72 => U72, 73 => U73, 74 => U74, 75 => U75, 76 => U76, 77 => U77, 78 => U78, 79 => U79, 80 => U80, 81 => U81, 82 => U82, 83 => U83, 84 => U84, 85 => U85, 86 => U86, 87 => U87, 88 => U88, 89 => U89, 90 => U90, 91 => U91, 92 => U92, 93 => U93, 94 => U94, 95 => U95, 96 => U96, 97 => U97, 98 => U98, 99 => U99, 100 => U100, 101 => U101, 102 => U102, 103 => U103, 104 => U104, 105 => U105, 106 => U106, 107 => U107, 108 => U108, 109 => U109, 110 => U110, 111 => U111, 112 => U112, 113 => U113, 114 => U114, 115 => U115, 116 => U116, 117 => U117, 118 => U118, 119 => U119, 120 => U120, 121 => U121, 122 => U122, 123 => U123, 124 => U124, 125 => U125, 126 => U126, 127 => U127, 128 => U128, 129 => U129, 130 => U130, 131 => U131, 132 => U132, 133 => U133, 134 => U134, 135 => U135, 136 => U136, 160 => U160, 200 => U200, 256 => U256, 257 => U257, 300 => U300)
     };
 }
 
@@ -195,6 +193,16 @@ pub fn digest_event_split(out: &mut dyn std::io::Write, alg: &str, n: usize, msg
             h.upd(&msg[..cut]);
             return h.chain_fin(&msg[cut..]);
         }
+        if split == usize::MAX - 2 {
+            // a reused hasher object: an earlier (empty / short / block-sized) message was finalized through one of the
+            // *_reset entry points; "every message" includes the ones hashed by an instance that has a past
+            let b = block_size(alg);
+            let past = [0usize, 0, 1, b - 1, b, b + 1, 0, 2 * b][msg.len() % 8];
+            h.upd(&vec![0xa5u8; past]);
+            let _ = h.fin_reset_how(1 + msg.len() / 8);
+            h.upd(msg);
+            return h.fin_reset_how(msg.len() / 3);
+        }
         if split == 0 || msg.len() < 2 {
             h.upd(msg);
         } else {
@@ -232,7 +240,8 @@ pub fn drive_digests(out: &mut dyn std::io::Write, family: &str, seed: u64, thor
             vec![0]
         };
         // every length 0..2B+17 (thorough) / all boundary lengths plus a rotating residue subset (quick)
-        let maxlen = 2 * b + 17;
+        let maxlen = if thorough { 4 * b + 17 } else { 2 * b + 17 };
+        let reps = if thorough { 3 } else { 1 };
         let mut lens: Vec<usize> = vec![];
         for l in 0..=maxlen {
             let boundary = [0usize, 1, 2].contains(&l)
@@ -242,7 +251,9 @@ pub fn drive_digests(out: &mut dyn std::io::Write, family: &str, seed: u64, thor
                 lens.push(l);
             }
         }
-        for (li, &l) in lens.iter().enumerate() {
+        for (li, &l) in lens.iter().cycle().take(lens.len() * reps).enumerate() {
+            // thorough: three passes over the lengths; the content kind, the output length and the feeding style rotate between passes
+            let li = li + li / lens.len();
             let n = ns[(li + ai) % ns.len()];
             let m = message(&mut rng, l, (li + ai) as u64);
             // two thirds of the sweep feed the message in one call, one third in two pieces cut at a pseudo-random point
@@ -250,14 +261,17 @@ pub fn drive_digests(out: &mut dyn std::io::Write, family: &str, seed: u64, thor
                 2 | 5 => 1 + rng.below(0xffff) as usize,
                 8 => usize::MAX,
                 7 => usize::MAX - 1,
+                4 => usize::MAX - 2,
                 _ => 0,
             };
             digest_event_split(out, alg, n, &m, "sweep", cfg, split);
         }
         if family == "skein" {
             // every output length against a few message shapes (empty, one byte, exactly one block, block + 1)
-            for &n in ns.iter() {
-                for l in [0usize, 1, b, b + 1] {
+            // (every N in 1..=136 and a few larger ones: an implementation may special-case "standard" sizes)
+            for &n in SKEIN_N.iter() {
+                let ls: Vec<usize> = if thorough || ns.contains(&n) { vec![0usize, 1, b, b + 1] } else if n % 2 == 0 { vec![0usize] } else { vec![b + 1] };
+                for &l in ls.iter() {
                     let m = message(&mut rng, l, n as u64);
                     digest_event(out, alg, n, &m, "outlen", cfg);
                 }
